@@ -530,6 +530,22 @@ func (c *FnCtx) specCall(env *SpecEnv, x *ast.CallExpr) *Val {
 				return &Val{T: fmt.Sprintf("((as const %s) %s)", so, arg(1).T), S: so}
 			}
 		}
+	case "astype":
+		// astype(x, "pkg.Type"): x viewed as a *pkg.Type (ghost sequences and maps hold untyped references)
+		a := arg(0)
+		if bl, ok := x.Args[1].(*ast.BasicLit); ok {
+			tn, _ := strconv.Unquote(bl.Value)
+			parts := strings.SplitN(tn, ".", 2)
+			if len(parts) == 2 {
+				if pk := c.V.pkgs[parts[0]]; pk != nil {
+					if o := pk.Types.Scope().Lookup(parts[1]); o != nil {
+						return &Val{T: a.T, S: SInt, Typ: types.NewPointer(o.Type())}
+					}
+				}
+			}
+			c.specErr("astype: unknown type %s", tn)
+		}
+		return a
 	case "pkgvar":
 		if bl, ok := x.Args[0].(*ast.BasicLit); ok {
 			k, _ := strconv.Unquote(bl.Value)
@@ -615,6 +631,13 @@ func (c *FnCtx) specCall(env *SpecEnv, x *ast.CallExpr) *Val {
 	case "dyntype":
 		c.decls.declFun("dyntype", []Sort{SInt}, SInt)
 		return &Val{T: tApp("dyntype", arg(0).T), S: SInt}
+	case "allocated":
+		// allocated(r): r is a reference that exists now (nil counts as allocated)
+		r := arg(0).T
+		if env.st != nil && env.st.alloc != "" {
+			return &Val{T: tAnd(tApp("<=", "0", r), tApp("<=", r, env.st.alloc)), S: SBool}
+		}
+		return &Val{T: "true", S: SBool}
 	case "fresh":
 		// fresh(r): r was allocated by this call (not allocated before)
 		c.decls.declFun("allocated0", []Sort{SInt}, SBool)
